@@ -7,7 +7,7 @@ from enum import Enum, IntEnum
 
 from asyncfix import FMsg, FTag
 from asyncfix.codec import Codec
-from asyncfix.errors import FIXConnectionError
+from asyncfix.errors import EncodingError, FIXConnectionError
 from asyncfix.journaler import Journaler
 from asyncfix.message import FIXMessage, MessageDirection
 from asyncfix.protocol import FIXProtocolBase
@@ -257,6 +257,13 @@ class AsyncFIXConnection:
             raise FIXConnectionError(
                 "You must rend TestRequest() message via self.send_test_req() method in"
                 " order to get valid response handling"
+            )
+
+        if not repr(msg).isascii():
+            # FIX frame lengths / checksum are calculated per byte, refuse before
+            #   MsgSeqNum is allocated
+            raise EncodingError(
+                f"Message contains non-ASCII characters, cannot be sent: {repr(msg)}"
             )
 
         encoded_msg = self._codec.encode(msg, self._session).encode("utf-8")
